@@ -3,9 +3,8 @@ from ..core import gz, glist, gbool
 
 ID = "C23"
 PROPS = ["theories/Props/C23.vo"]
-PINNED = ["C23_bookkeeping_restored", "C23_bookkeeping_ok", "C23_no_fault", "C23_value_returned", "C23_room",
-          "C23_holds_outside",
-          "C23_refuted_red_zone_counts_guard_page"]
+PINNED = ["C23_bookkeeping_restored", "C23_holds", "C23_bookkeeping_ok", "C23_no_fault", "C23_value_returned",
+          "C23_room", "C23_refuted_before_repair"]
 CASES_MODULE = "Cases.C23"
 HEADER = "From OCV Require Import Misc.StackGrow Misc.StackGrowOracle."
 AREA = "grow"
@@ -14,11 +13,13 @@ TIMEOUT_MS = 20000
 LEVEL = "proof"
 SHRINK_KEY = None
 RULE = ("program trees run by real maybe_grow_with on a plain thread and inside a coroutine: the stack pointer is "
-        "positioned (measured) well above or well below the red zone before each call, calls are nested up to 4 deep, "
+        "positioned (measured) well above or well below the threshold (red zone + guard page) before each call, calls "
+        "are nested up to 4 deep, "
         "panics are raised at every depth and caught outside the call or further out, the bookkeeping is probed "
         "before, inside and after, and a 300-1500 level recursion (grow, use a 1-8 KiB frame, recurse) follows; "
-        "red-zone/stack-size pairs from a grid (12-64 KiB / 64-256 KiB); a few cases aim at the one-page window in "
-        "which the check counts the guard page; non-trivial = at least one call grew and one ran in place, or a "
+        "red-zone/stack-size pairs from a grid (12-64 KiB / 64-256 KiB); a few cases (coroutine, and plain thread on its first grown segment) aim half a page below "
+        "the threshold (inside the one-page window in which the check used to count the guard page, finding "
+        "red_zone_counts_guard_page, repaired) or a page and a half above it; non-trivial = at least one call grew and one ran in place, or a "
         "panic was caught across a grown segment, or a recursion ran; distinct = distinct (context, program)")
 TRUSTED = ["the harness's shadow list of the segments it is really running on (from the stack pointer read inside each "
            "callback; popped by the harness's own guard) and its measured positioning of the stack pointer",
@@ -26,7 +27,7 @@ TRUSTED = ["the harness's shadow list of the segments it is really running on (f
 ASSUMPTIONS = ["callbacks that do anything (panic, catch, nested calls) run with at least 48 KiB left: the stack the "
                "harness's own unwinding needs is not modelled",
                "stack positions are meaningful to within about a page: programs keep decisions at least 3 pages away "
-               "from the red zone, except the deliberate guard-window cases",
+               "from the threshold (red zone + guard page), except the deliberate window cases (half a page below, a page and a half above)",
                "usable(stack_size) >= red_zone + 3 pages (the statement's premise), frames of the recursion fit the red zone",
                "the facade path open_coroutine::maybe_grow -> maybe_grow_stack is not exercised (no e2e harness in this framework)"]
 
@@ -56,7 +57,7 @@ ROOMY = 12 * PAGEZ       # a callback run in place gets a non-empty body only wi
 
 class Gen:
     """generates a program while tracking the model's remaining stack, so that every decision is
-    at least 3 pages away from the red zone"""
+    at least 3 pages away from the threshold (red zone + guard page)"""
 
     def __init__(self, rng, ctx):
         self.rng = rng
@@ -73,17 +74,21 @@ class Gen:
             body = self.body(mmap_len(size) - 512, depth + 1, grown + 1, budget)
             return [{"i": "grow", "rz": rz, "size": size, "v": v, "body": body}]
         top = rem - 2 * PAGEZ                      # positions are effective only below this
-        can_stay = top >= rz + 3 * PAGEZ
-        can_grow = min(rz - 3 * PAGEZ, top) >= LOW
-        if window and top >= rz + 2048:
-            pos = rz + 2048
+        thr = rz + PAGEZ                           # the code stays in place from here up
+        can_stay = top >= thr + 3 * PAGEZ
+        can_grow = min(thr - 3 * PAGEZ, top) >= LOW
+        if window and top >= thr + 6144:
+            # half a page below the threshold (must grow; before the repair: ran in place without
+            # the red zone) or a page and a half above it (runs in place, with the red zone; the
+            # harness reads the stack pointer inside the callback, more than half a page further down)
+            pos = thr - 2048 if window == "below" else thr + 6144
             body = [{"i": "probe"}]
         elif can_stay and (not can_grow or rng.random() < 0.5):
-            pos = rng.choice([rz + 3 * PAGEZ, rz + 5 * PAGEZ, top])
-            pos = max(rz + 3 * PAGEZ, min(pos, top))
+            pos = rng.choice([thr + 3 * PAGEZ, thr + 5 * PAGEZ, top])
+            pos = max(thr + 3 * PAGEZ, min(pos, top))
             body = self.body(pos, depth + 1, grown, budget) if pos >= ROOMY else [{"i": "probe"}]
         elif can_grow:
-            hi = min(rz - 3 * PAGEZ, top)
+            hi = min(thr - 3 * PAGEZ, top)
             pos = rng.choice([LOW, hi, (LOW + hi) // 2 // 16 * 16])
             body = self.body(mmap_len(size) - 512, depth + 1, grown + 1, budget)
         else:
@@ -135,7 +140,13 @@ def program(rng, ctx, stack, kind):
         prog.append({"i": "probe"})
         prog += g.grow(base_rem, 0, 0, [3])
     elif kind == "window" and ctx == "co":
-        prog += g.grow(base_rem, 0, 0, [2], window=True)
+        prog += g.grow(base_rem, 0, 0, [2], window=rng.choice(["below", "below", "above"]))
+        prog.append({"i": "probe"})
+    elif kind == "window":
+        # plain thread: the first call always grows; the window call is made on that fresh segment
+        size0 = rng.choice([131072, 262144])
+        inner = g.grow(mmap_len(size0) - 512, 1, 1, [2], window=rng.choice(["below", "below", "above"]))
+        prog.append({"i": "grow", "rz": 32768, "size": size0, "v": 99, "body": [{"i": "probe"}] + inner})
         prog.append({"i": "probe"})
     else:
         for _ in range(rng.randint(1, 3)):
@@ -154,7 +165,8 @@ def gen(rng, tier):
     n = {"quick": 80, "thorough": 800, "search": 300}[tier]
     cases = []
     plan = [("thread", "random"), ("co", "random"), ("thread", "panic_then_recursion"), ("co", "panic_then_recursion"),
-            ("thread", "random"), ("co", "window"), ("thread", "panic_then_recursion"), ("co", "random")]
+            ("thread", "random"), ("co", "window"), ("thread", "panic_then_recursion"), ("co", "random"),
+            ("thread", "window")]
     for i in range(n):
         ctx, kind = plan[i % len(plan)]
         stack = rng.choice([262144, 524288]) if ctx == "thread" else rng.choice([131072, 262144])
@@ -217,11 +229,13 @@ def nontrivial(case, obs, verdict):
 
 def distribution(results):
     d = {"thread": 0, "co": 0, "kinds": {}, "grow_events": 0, "grew": 0, "in_place": 0, "caught": 0, "recursions": 0,
-         "faults": 0, "guard_window_hits": 0, "events_max": 0}
+         "faults": 0, "in_place_without_room": 0, "window_cases": 0, "events_max": 0}
     for c, o, v in results:
         d[c["cfg"]["ctx"]] += 1
         d["kinds"][c.get("kind", "corpus")] = d["kinds"].get(c.get("kind", "corpus"), 0) + 1
         d["events_max"] = max(d["events_max"], len(o))
+        if c.get("kind") == "window":
+            d["window_cases"] += 1
         for e in o:
             if not isinstance(e, dict):
                 d["faults"] += 1
@@ -230,7 +244,7 @@ def distribution(results):
                 d["grow_events"] += 1
                 d["grew" if e["grew"] else "in_place"] += 1
                 if not e["grew"] and not e["room"]:
-                    d["guard_window_hits"] += 1
+                    d["in_place_without_room"] += 1
             elif e.get("e") == "caught":
                 d["caught"] += 1
             elif e.get("e") == "rec":
@@ -244,15 +258,18 @@ LEVEL_TEXT = ("Bookkeeping model of maybe_grow_with for both paths (coroutine: s
               "thread: the thread-local list, with the same guard after the repair of finding #26) over program trees "
               "of positioned, nested grow calls, panics, catches and deep recursion. Proved for all trees: whatever "
               "returns or unwinds, the recorded list, the segments in use and the stack pointer are as before the call; "
-              "on well-formed trees every call grows exactly when the stack really in use lacks the red zone, the "
-              "coroutine reports exactly the segments in use, the callback runs inside the last one, fresh segments have "
-              "the red zone, values come back, and no recursion faults. 'At least the red zone available' on the path "
-              "that does not grow is REFUTED by one page (the check counts the guard page) and proved outside that "
-              "window. Level partial: addresses, the stack switch (corosensei::on_stack), mmap and real memory "
+              "on well-formed trees every call grows exactly when the stack really in use lacks the red zone of usable "
+              "bytes, the coroutine reports exactly the segments in use, the callback runs inside the last one, every "
+              "callback - on a fresh segment or in place - has the red zone (guard page not counted; C23_holds, no side "
+              "condition, after the repair of finding red_zone_counts_guard_page), values come back, and no recursion faults. The decision "
+              "before the repair is kept as a model parameter and refuted (witness theorem). Level partial: addresses, "
+              "the stack switch (corosensei::on_stack), mmap and real memory "
               "availability are modelled, not verified; they are measured by running the same trees on the real code, "
               "including 300-1500 level recursions after caught panics, in a child process per case.")
 LEVEL_NOTE = ("partial by nature: the theorems are about the bookkeeping and decision logic; that a segment of the "
               "recorded size is really usable memory is only measured. Trusted: the harness's own shadow segment list "
-              "and stack-pointer positioning (to within a page), psm::stack_pointer, corosensei. Known finding kept: "
-              "red_zone_counts_guard_page (a callback run in place can have up to 4096 bytes less than the red zone; "
-              "default_red_zone() already adds a page, explicit red zones do not). No axioms.")
+              "and stack-pointer positioning (to within a page), psm::stack_pointer, corosensei. Finding "
+              "(red_zone_counts_guard_page) is repaired for unix, where a DefaultStack has exactly one guard page above "
+              "limit(): the decision requires red_zone + one page. On windows limit() also lies below the guard pages "
+              "and the thread stack guarantee, whose size corosensei does not expose; nothing is deducted there (not "
+              "covered by this framework, which runs on linux). No axioms.")
